@@ -4,10 +4,17 @@ C15 driver: one JSON request per line on stdin, one JSON answer per line on stdo
       -> {"ok":[lines],"order":[names]} | {"err":"conflict"|"missing"|"cycle"|"fuel"}
   {"op":"spec","blocks":[..],"result":{"ok":[lines]} | {"err":kind}}
       -> {"holds":bool,"why":string}
+  {"op":"exec","session":[[query,..],..]}   query = "ds" | {"md":md,"src":query} | {"call":[query,..]}
+      md = "other" | "bad" | {"name":..,"script":[..],"deps":[..]|null}
+      -> {"results":[{"ok":[lines],"order":[names],"text":file} | {"err":kind}, ..]}
+  "gen" also answers "fifo" (the order computed by the independent FIFO work list of SpecOrder.lean), "arrival"
+  and "cycle" (whether some list of distinct sent names is a closed dependency walk)
 Run: lake env lean --run FaxVerif/C15/Driver.lean
 -/
 import Lean.Data.Json
 import FaxVerif.C15.Spec
+import FaxVerif.C15.SpecOrder
+import FaxVerif.C15.ModelExec
 open Lean FaxVerif.C15
 
 def strList (j : Json) : Except String (List String) := do
@@ -50,17 +57,67 @@ def specOn (bs : List JB) (res : Json) : Except String Json := do
       else return Json.mkObj [("holds", false), ("why", "ValueError although no conflict, no missing dependency, no cycle")]
     else return Json.mkObj [("holds", false), ("why", s!"raised {k}, the property allows ValueError only")]
 
+def parseMd (j : Json) : Except String Md := do
+  match j.getStr? with
+  | .ok "other" => pure .other
+  | .ok "bad" => pure .bad
+  | .ok s => throw s!"unknown md {s}"
+  | .error _ =>
+    let name ← (← j.getObjVal? "name").getStr?
+    let script ← strList (← j.getObjVal? "script")
+    let d ← j.getObjVal? "deps"
+    if d.isNull then pure (.jobScript name script none)
+    else pure (.jobScript name script (some (← strList d)))
+
+partial def parseQ (j : Json) : Except String Q := do
+  match j.getStr? with
+  | .ok _ => pure .ds
+  | .error _ =>
+    match j.getObjVal? "md" with
+    | .ok m => pure (.metaData (← parseMd m) (← parseQ (← j.getObjVal? "src")))
+    | .error _ =>
+      let a ← (← j.getObjVal? "call").getArr?
+      pure (.call (← a.toList.mapM parseQ))
+
+def xerrKind : XErr → String
+  | .metadata => "metadata" | .script e => errKind e | .template => "template"
+
+def execOn (j : Json) : Except String Json := do
+  let ss ← (← j.getObjVal? "session").getArr?
+  let qss ← ss.toList.mapM fun t => do
+    let a ← t.getArr?
+    a.toList.mapM parseQ
+  let rs := session ⟨[]⟩ qss
+  pure (Json.mkObj [("results", Json.arr (rs.map fun r =>
+    match r with
+    | .ok w => Json.mkObj [("ok", jstrs w.lines), ("order", jstrs w.order), ("text", Json.str (String.join w.chunks))]
+    | .error e => Json.mkObj [("err", xerrKind e)]).toArray)])
+
+/-- does the dependency graph of the sent blocks have a cycle: search over simple closed walks -/
+def hasCycleB (bs : List JB) : Bool :=
+  let ns := arrival bs
+  let rec go : Nat → String → String → List String → Bool
+    | 0, _, _, _ => false
+    | fuel + 1, first, cur, visited =>
+      (depsOf bs cur).any fun d =>
+        d == first || (d ∈ ns && !(d ∈ visited) && go fuel first d (d :: visited))
+  ns.any fun n => go (ns.length + 1) n n [n]
+
 def handle (line : String) : String :=
   match Json.parse line with
   | .error e => (Json.mkObj [("bad", e)]).compress
   | .ok j =>
     let r : Except String Json := do
       let op ← (← j.getObjVal? "op").getStr?
+      if op == "exec" then return (← execOn j)
       let bs ← parseBlocks j
       if op == "gen" then
+        let extra : List (String × Json) :=
+          [("arrival", jstrs (arrival bs)), ("cycle", Json.bool (hasCycleB bs)),
+           ("fifo", match fifoOrder bs with | some π => jstrs π | none => Json.null)]
         match genScriptOrder bs with
-        | .ok (π, out) => pure (Json.mkObj [("ok", jstrs out), ("order", jstrs π)])
-        | .error e => pure (Json.mkObj [("err", errKind e)])
+        | .ok (π, out) => pure (Json.mkObj (("ok", jstrs out) :: ("order", jstrs π) :: extra))
+        | .error e => pure (Json.mkObj (("err", Json.str (errKind e)) :: extra))
       else if op == "spec" then specOn bs (← j.getObjVal? "result")
       else throw s!"unknown op {op}"
     match r with
